@@ -2,12 +2,11 @@ import UrcuVerif.Lfq.InvStep
 namespace UrcuVerif.Lfq
 
 theorem inv_enqCall {c s s' t o n} (h : Inv c s) (st : step c s t (.enqCall n) = some (s', o)) : Inv c s' := by
-  have nm := fun x hx hnx => seg_next_mem h.seg h.nodup (x := x) hx hnx
   have segc : ∀ v, n ∉ s.chain → Seg (upd s.next n v) s.head s.chain := fun v hn =>
     seg_congr h.seg (by intro x hx; have : x ≠ n := fun e => hn (e ▸ hx); simp [upd, this])
-  have filt : ∀ v, n ∉ s.chain → s.chain.filter (fun p => !(upd s.isDummy n v) p) = s.chain.filter (fun p => !s.isDummy p) :=
-    fun v hn => filter_congr' (by intro x hx; have : x ≠ n := fun e => hn (e ▸ hx); simp [upd, this])
-  simp only [upd] at segc filt
+  have filt : ∀ v : Bool, n ∉ s.chain →
+      s.chain.filter (fun p => !(if p = n then v else s.isDummy p)) = s.chain.filter (fun p => !s.isDummy p) :=
+    fun v hn => filter_congr' (by intro x hx; have : x ≠ n := fun e => hn (e ▸ hx); simp [this])
   inv_open h; inv_dbg st
 
 end UrcuVerif.Lfq
